@@ -634,36 +634,88 @@ def check_orient(ck, fn):
 
 
 def check_insert_orient(ck, fn):
+    """splay_insert: on every path (tree empty | new key strictly smaller | strictly larger) the links written are the ones of
+    a root insertion: decision table over {t is null, cmp(new, root), cmp(root, new)}"""
     nn, t = fn.params[0]["did"], fn.params[1]["did"]
-    ifs = [x for x in ir.walk(fn.body) if x["k"] == "IfStmt" and match.functor_call(kids(x)[0])]
-    ck.require(len(ifs) == 1, "%s: splay_insert decision not found" % fn.loc)
-    fc = match.functor_call(kids(ifs[0])[0])
 
     def owner(e):
         f = match.field_of(e)
         return ref_of(f[0]) if f and f[1] == "key" else None
-    new_smaller_then = (owner(fc[1][0]), owner(fc[1][1])) == (nn, t)
-    ck.require(new_smaller_then or (owner(fc[1][0]), owner(fc[1][1])) == (t, nn), "%s: comparison operands not understood" % fn.loc)
 
-    def links(branch):
+    def atomize(n, run):
+        n0 = strip_casts(n)
+        pt = match.ptr_truth(n) or (match.ptr_truth(n0) if n0 is not n else None)
+        if pt is not None and ref_of(pt) == t:
+            return ("null", True)
+        bb = match.binop(n0, ("==", "!="))
+        if bb:
+            for l, r in ((bb[1], bb[2]), (bb[2], bb[1])):
+                if ref_of(l) == t and strip_casts(r)["k"] in ("NullPtr", "CXXNullPtrLiteralExpr", "GNUNullExpr"):
+                    return ("null", bb[0] == "!=")
+        fc = match.functor_call(n0)
+        if fc and len(fc[1]) == 2:
+            o = (owner(fc[1][0]), owner(fc[1][1]))
+            if o == (nn, t):
+                return ("new<root", False)
+            if o == (t, nn):
+                return ("root<new", False)
+            raise dtable.Undecidable("%s: comparison operands not understood: %s" % (fn.loc, dtable.describe(n0)))
+        return None
+    leaves = dtable.explore(fn.body, atomize, fn)
+
+    def links(lf):
         out = {}
-        for y in ir.walk(branch):
-            b = match.binop(y, ("=",))
-            if b:
-                f = match.field_of(b[1])
+        for ev in lf["events"]:
+            if ev[0] != "expr":
+                continue
+            stack = [ev[1]]
+            # chained assignment a = b = c: the innermost first
+            order = []
+            while stack:
+                y = stack.pop()
+                bq = match.binop(y, ("=",)) if y is not None and y["k"] in ("BinaryOperator",) else None
+                if bq:
+                    order.append(bq)
+                    stack.append(strip_casts(bq[2]))
+            for bq in reversed(order):
+                f = match.field_of(bq[1])
                 if f and f[1] in ("left", "right"):
-                    rhs = strip_casts(b[2])
+                    rhs = strip_casts(bq[2])
+                    while rhs is not None and rhs["k"] == "BinaryOperator" and rhs.get("op") == "=":
+                        rhs = strip_casts(kids(rhs)[1])
                     f2 = match.field_of(rhs)
                     out[(ref_of(f[0]), f[1])] = "null" if rhs["k"] == "NullPtr" else ("t" if ref_of(rhs) == t else (("t->" + f2[1]) if f2 and ref_of(f2[0]) == t else "?"))
         return out
-    then, els = links(kids(ifs[0])[1]), links(kids(ifs[0])[2])
-    small, large = (then, els) if new_smaller_then else (els, then)
+    want_empty = {(nn, "left"): "null", (nn, "right"): "null"}
     want_small = {(nn, "left"): "t->left", (nn, "right"): "t", (t, "left"): "null"}
     want_large = {(nn, "right"): "t->right", (nn, "left"): "t", (t, "right"): "null"}
-    if small == want_small and large == want_large:
-        ck.ok("SPLAY-ORIENT", "splay_insert", "new key smaller: old root becomes right child (and hands over its left subtree); otherwise mirrored")
+    atoms = dtable.atoms_of(leaves)
+    if "null" not in atoms or not ({"new<root", "root<new"} & set(atoms)):
+        raise dtable.Undecidable("%s: splay_insert decision not found" % fn.loc)
+    bad = None
+    for v, lf in dtable.table(leaves, lambda v_: not (v_.get("new<root") and v_.get("root<new")), atoms):
+        got = links(lf)
+        ret = lf["stop"][1][0] if lf["stop"][0] == "return" and lf["stop"][1] else None
+        if ret is None or ref_of(ret) != nn:
+            bad = bad or (v, "does not return the new node")
+            continue
+        is_null = v["null"]
+        if is_null:
+            if got != want_empty:
+                bad = bad or (v, "inserting into an empty tree must null both links of the new node")
+        elif v.get("new<root"):
+            if got != want_small:
+                bad = bad or (v, "new key smaller: the old root must become the right child and hand over its left subtree")
+        elif v.get("root<new"):
+            if got != want_large:
+                bad = bad or (v, "new key larger: the old root must become the left child and hand over its right subtree")
+        else:
+            if got not in (want_small, want_large):
+                bad = bad or (v, "equivalent keys: the old root must become a child of the new node")
+    if bad:
+        ck.violation("SPLAY-ORIENT", fn.qname, "splay_insert", "the new root is linked on the wrong side of the old root (%s): %s" % (dtable.fmt_val(bad[0]), bad[1]), fn.loc)
     else:
-        ck.violation("SPLAY-ORIENT", fn.qname, "splay_insert", "the new root is linked on the wrong side of the old root", fn.nloc(ifs[0]))
+        ck.ok("SPLAY-ORIENT", "splay_insert", "new key smaller: old root becomes right child (and hands over its left subtree); otherwise mirrored")
 
 
 def run(ck):
